@@ -283,6 +283,9 @@ type subSpec struct {
 	Stall     bool `json:"stall,omitempty"`      // the client does not read until all messages have been logged and consumed
 	FailAfter int  `json:"fail_after,omitempty"` // k>0: the connection breaks when the server sends its k-th message
 	Late      bool `json:"late,omitempty"`       // (concurrent scenarios) connects while messages are being logged
+	// round 7 (fan-out to several subscribers, see fanout.go)
+	ID   string `json:"id,omitempty"`   // 16 hex digits: the subscription id is forced to this value (it fixes the subscriber's place in the handler's iteration order, which under gosim is the sorted key order)
+	Room int    `json:"room,omitempty"` // k>0: no websocket client but a subscription whose queue has room for k-1 more frames and is never drained (a peer that stopped reading some time ago)
 }
 
 var (
@@ -1195,7 +1198,8 @@ func rtCases(tier string) []rtCase {
 			}
 		}
 	}
-	return append(out, auditCases(tier)...)
+	out = append(out, auditCases(tier)...)
+	return append(out, fanoutCases(tier)...)
 }
 
 func (c rtCase) weight() int64 {
@@ -1394,6 +1398,9 @@ func roundTripCase(out *shardOut, i int, c rtCase, states map[string]bool) {
 		}
 		for _, k := range keys {
 			states[k] = true
+			if strings.HasPrefix(k, "fanout/") {
+				out.Counters["fanout_subscribers:"+strings.TrimPrefix(k, "fanout/")]++
+			}
 			if strings.HasPrefix(k, "sub/stall=true") {
 				if strings.Contains(k, "complete=true") {
 					out.Counters["handler_stalled_subscribers_that_got_everything"]++
@@ -1489,6 +1496,9 @@ func concScenarios(tier string) []concScenario {
 			sub("connection breaks at message 3", 2, subSpec{FailAfter: 3}, 3, 15000)
 			sub("late subscriber whose connection breaks at message 2", 1, subSpec{Late: true, FailAfter: 2}, 3, 54000)
 		}
+	}
+	if os.Getenv("C19_CALIBRATE") == "" {
+		out = append(out, fanoutScenarios(tier)...)
 	}
 	if os.Getenv("C19_CALIBRATE") == "" {
 		if tier != "thorough" {
@@ -1640,6 +1650,9 @@ func execConc(sc concScenario, obs *observation) {
 			msgs, _, _ := wsMessages(c.out[hs+4:])
 			n = len(msgs)
 		}
+		if c.q != nil {
+			n = len(c.qmsgs)
+		}
 		fmt.Fprintf(&sb, "| sub%d got %d closed=%v ", i, n, c.closed)
 	}
 	vrt.Log("%s", sb.String())
@@ -1776,9 +1789,13 @@ func concPart(out *shardOut, scen []concScenario, shard, nshards int, deadline t
 			}
 			nf, keys, _ := checkObservation(obs, add)
 			if len(obs.subs) > 0 {
+				class := "conc_handler:"
+				if fanoutCase(obs) {
+					class = "conc_handler_fanout:"
+				}
 				keys = append(keys, checkSubscribers(obs, func(sym, desc string) {
 					nviol++
-					out.violate("conc_handler:"+sym, fmt.Sprintf("scenario %q schedule %v: %s (wire order: %v)", sc.Name, r.ChoiceSeq(), desc, r.Log), replay)
+					out.violate(class+sym, fmt.Sprintf("scenario %q schedule %v: %s (wire order: %v)", sc.Name, r.ChoiceSeq(), desc, r.Log), replay)
 				})...)
 			}
 			out.Counters["conc_frames"] += int64(nf)
@@ -2212,6 +2229,9 @@ func main() {
 		if os.Getenv("C19_SKIP_RT") == "" {
 			roundTripPart(out, cases, scen, i, n)
 		}
+		for k, v := range fanoutStats {
+			out.Counters[k] += v
+		}
 		out.Counters["conc_ms_sum"] = t1.Sub(t0).Milliseconds()
 		out.Counters["rt_ms_sum"] = time.Since(t1).Milliseconds()
 		b, _ := json.Marshal(out)
@@ -2280,13 +2300,19 @@ func main() {
 	if int64(len(cases)) != rep.Counter("rt_cases") {
 		rep.Incomplete = fmt.Sprintf("only %d of %d round-trip cases were executed", rep.Counter("rt_cases"), len(cases))
 	}
+	for _, k := range []string{"fanout_harness_cannot_register_queue", "fanout_harness_ids_not_verifiable", "fanout_harness_forced_id_not_taken"} {
+		if rep.Counter(k) > 0 {
+			rep.Incomplete = fmt.Sprintf("fan-out families: %s in %d executions (the handler's subscription table or id source is not what the harness expects): the visiting order was not under control", k, rep.Counter(k))
+		}
+	}
+	rep.Coverage["fanout_visiting_order"] = "Handler.Write visits Handler.subs in map iteration order; in the gosim build every `range` over a map is rewritten to sorted key order, and the subscription ids (the keys) are forced through crypto/rand.Reader / chosen by the harness and verified after connecting (counter fanout_executions_with_verified_visiting_order): every arrangement of the roles in visiting order is enumerated, nothing depends on the runtime's random order and nothing is repeated"
 	rep.Coverage["states"] = len(states)
 	rep.Coverage["transitions"] = rep.Counter("rt_points") + rep.Counter("conc_points") + rd.cases
 	rep.Coverage["traces_validated_against_impl"] = rep.Counter("rt_cases") + rep.Counter("conc_executions") + rd.cases
 	rep.Coverage["evaluations"] = rep.Counter("rt_cases") + rep.Counter("conc_executions") + rd.cases
 	rep.Coverage["executions"] = rep.Counter("conc_executions")
 	rep.Coverage["distinct_nontrivial"] = rep.Counter("rt_cases_multi_data_frames") + rep.Counter("conc_distinct_wire_orders") + rd.huge
-	rep.Coverage["rule"] = "part 1: cartesian spaces A (96 message shapes x 14 body/consumer configs), B (4 shapes x full product of body size x EOF style x error offset x read-buffer sequence x early close x close error) and C (6 message pairs x 4x4 bodies) enumerated in full, plus the audit spaces D (length and index fields beyond 16 bits), E (short / no-progress / transient-error bodies x zero-length buffers x consumers that read on after an error), N (http.NoBody itself, nil bodies), S (Modifier x SkipLogging), A2 (further message shapes), W (failing writer: call number x once/persistent x error/short write), X (Stream.Close after k consumer steps, logging after Close) and H (marbl.Handler behind the stream: subscriber sets x message pairs; a stalled subscriber around the 16384-frame buffer), non-trivial = the message produced >= 2 data frames; " +
+	rep.Coverage["rule"] = "part 1: cartesian spaces A (96 message shapes x 14 body/consumer configs), B (4 shapes x full product of body size x EOF style x error offset x read-buffer sequence x early close x close error) and C (6 message pairs x 4x4 bodies) enumerated in full, plus the audit spaces D (length and index fields beyond 16 bits), E (short / no-progress / transient-error bodies x zero-length buffers x consumers that read on after an error), N (http.NoBody itself, nil bodies), S (Modifier x SkipLogging), A2 (further message shapes), W (failing writer: call number x once/persistent x error/short write), X (Stream.Close after k consumer steps, logging after Close), H (marbl.Handler behind the stream: subscriber sets x message pairs; a stalled subscriber around the 16384-frame buffer) and M (fan-out: 2..3 (thorough 4) subscribers x every arrangement of {keeps up, stalled} in the handler's visiting order x the stalled queue's room 0..33 frames (one stalled: all; two: 6x6, thorough n=3: all pairs) x connecting order x Stream/Modifier), non-trivial = the message produced >= 2 data frames; " +
 		"part 2: every interleaving (or every interleaving within the deviation bound) of each scenario, non-trivial = distinct orders of frames on the wire; " +
 		"part 3: frame grammar x length set x every truncation offset x 3 prefixes + all short strings + a 13 KB stream whose frames straddle bufio's 4096-byte buffer x truncation offsets x 5 kinds of source (bytes.Reader, one byte per Read, data together with EOF, half reads, a non-EOF error), non-trivial = a length field (or their sum) >= 2^31-1"
 	rep.Coverage["exhaustive"] = rep.Incomplete == ""
@@ -2301,7 +2327,8 @@ func main() {
 		"the wire id of a message is the first 8 bytes of the id handed to the stream (the frame format has an 8-byte id field; the Modifier passes 16-character context ids); ids shorter than 8 bytes and distinct ids sharing an 8-byte prefix are outside the enumerated space",
 		"the pseudo-header vocabulary is marbl's (:method :scheme :authority :path :query :proto :remote :timestamp [:api] / :proto :status :reason :timestamp [:api]); :reason carries Response.Status; Content-Length: 0 may or may not be logged",
 		"one consumer per body (no concurrent Reads of one body); a failing writer is judged on liveness, wrapper transparency and whole accepted frames only (what a lossy writer drops is not the stream's fault); after Stream.Close the log is a prefix",
-		"marbl.Handler is driven through its public ServeHTTP with hijacked in-memory connections (x/net/websocket runs unmodified on them); a subscriber is 'there from the start' once its handler goroutine waits for frames; only one subscriber in explored (part 2) scenarios because subscriber ids are random and several of them would make thread numbering irreproducible",
+		"fan-out families M/F6: a subscriber that stalled with room for r more frames is a queue of capacity r that nobody drains, put into Handler.subs directly (subscribe is unexported; Write uses a queue only through a non-blocking send); subscribers that keep up are real websocket clients; the thorough tier also runs a real stalled websocket client (16384-frame queue) next to one that keeps up in both visiting orders",
+		"marbl.Handler is driven through its public ServeHTTP with hijacked in-memory connections (x/net/websocket runs unmodified on them); a subscriber is 'there from the start' once its handler goroutine waits for frames; one subscriber in the explored F5 scenarios; the F6 scenarios have two with forced ids",
 		"gosim: scheduling points are channel operations, atomics, locks and (where stated) the writer's Write; map iteration in rewritten martian code is in sorted key order; virtual clock",
 		"part 3 runs the unmodified reader code natively (it has no concurrency); an attempt to allocate > 1 GiB is detected by an address-space cap on the worker process" + map[bool]string{true: " (cap could not be installed in this run: detection falls back to measured allocation > 64 MiB)", false: ""}[rd.uncapped],
 	}
